@@ -8,6 +8,9 @@ from mc.lib import crossings, events, records
 
 ID = 'C13'
 LEVEL = 'model_checking'
+# fewer non-trivial cases than this share of all cases means that the
+# exploration has become vacuous (reported as INTERNAL-ERROR, never as a pass)
+MIN_NONTRIVIAL_FRACTION = 0.15
 RULE = (
     'Event-word datasets (truth-consistent, and perturbed: irregular falls, '
     'a pause inside a storm so that two rises share one storm, a missing '
